@@ -212,7 +212,7 @@ class Mesh2D(MeshBase):
         _mesh_init._face_centroids = _centroids
         _mesh_init._face_area_centroids = _centroids
         _new_mesh, _face_pattern = _mesh_init.remove_vertices(_pattern)
-        _new_mesh._face_areas = x_dim * y_dim
+        _new_mesh._face_areas = _x_dim * _y_dim
         return _new_mesh
 
     @classmethod
